@@ -233,6 +233,14 @@ def prepare(ctx, theorems):
     if hits:
         ok_all = False
         ctx.theorem_failures.append({'audit': hits})
+    # thorough tier: the property's theorem modules are re-checked by the toolchain's independent checker
+    if getattr(ctx, 'tier', 'quick') == 'thorough' and ok:
+        for mod in mods:
+            okc, outc, dtc = vbuild.leanchecker(mod)
+            ctx.count('leanchecker_modules', 1)
+            if not okc:
+                ok_all = False
+                ctx.theorem_failures.append({'modules': [mod], 'log': 'leanchecker: ' + outc[-2000:]})
     for mod, names in theorems:
         if not names:
             continue
